@@ -283,17 +283,26 @@ var mutators = []mutator{
 		return true
 	}},
 	{"merge-twin-shapes", "5.3.2", func(m *mctx) bool {
-		tw := rng.Pick(m.r, []string{"t", "tl", "to"})
+		tw := rng.Pick(m.r, []string{"t", "tl", "to", "tn", "tol", "ton"})
+		first, second := "Alpha", "Beta"
+		if tw == "tn" {
+			// Int (Alpha) against Int! (Gamma): non-null against nullable
+			tw, second = "t", "Gamma"
+		}
 		s := m.pickSet(func(s *gSet) bool {
 			p := (&gen{w: m.w}).possible(s.Parent)
-			return p["Alpha"] && p["Beta"]
+			return p[first] && p[second]
 		})
 		if s == nil {
 			return false
 		}
+		// the conflicting pair in either order (the shape comparison is not symmetric in the code)
+		if m.r.Chance(1, 2) {
+			first, second = second, first
+		}
 		mk := func(tn string) *gSel {
 			f := leaf(tw)
-			if tw == "to" {
+			if tw == "to" || tw == "tol" || tw == "ton" {
 				f.Sub = &gSet{Sels: []*gSel{leaf("__typename")}}
 			}
 			return &gSel{Kind: kInline, Cond: tn, Sub: &gSet{Sels: []*gSel{f}}}
@@ -305,7 +314,7 @@ var mutators = []mutator{
 			m.insert(s, a, b)
 			return true
 		}
-		m.insert(s, mk("Alpha"), mk("Beta"))
+		m.insert(s, mk(first), mk(second))
 		return true
 	}},
 	{"merge-nested-conflict", "5.3.2", func(m *mctx) bool {
